@@ -362,6 +362,46 @@ def call_real(qual: str, world: World, variant, data, recv_first=True):
         return ("raise", type(e).__name__, "".join(traceback.format_exception_only(type(e), e)).strip())
 
 
+def call_real_history(qual: str, world: World, variant, data, param, edge):
+    """History probe (no hidden state): call the real function, add the directed edge `edge` (pair of universe indices) to the
+    graph argument `param` *in place* through the public NxMixedGraph API, and call again on the same objects.  Returns the
+    second outcome; the caller compares it with the outcome on a freshly built graph that has the edge from the start."""
+    args = {}
+    for p, k in variant.items():
+        if (isinstance(k, tuple) and k[0] == "const") or k == "omit":
+            continue
+        args[p] = None if k == "none" else to_real(world, data[p])
+    fn, bound = resolve_callable(qual)
+    g = args[param]
+    args = shape_iterables(qual, fn, bound, args, data)
+    args[param] = g
+
+    def once():
+        a = dict(args)
+        # one-shot iterators are consumed by the first call: rebuild them
+        for p, v in list(a.items()):
+            if p != param and hasattr(v, "__next__"):
+                a[p] = iter(list(to_real(world, data[p])))
+        try:
+            if bound == "method":
+                names = list(a)
+                recv = a.pop(names[0])
+                res = getattr(recv, fn)(**a)
+            elif bound == "classmethod":
+                res = getattr(fn[0], fn[1])(**a)
+            else:
+                res = fn(**a)
+            import types
+            if isinstance(res, types.GeneratorType):
+                res = list(res)
+            return ("return", res)
+        except Exception as e:
+            return ("raise", type(e).__name__, "".join(traceback.format_exception_only(type(e), e)).strip())
+    first = once()
+    g.add_directed_edge(world.obj(edge[0]), world.obj(edge[1]))
+    return first, once()
+
+
 def shape_iterables(qual, fn, bound, args, data):
     """A parameter annotated Iterable[...] may legally receive any iterable, including one-shot iterators; one annotated
     Collection / Sequence any re-iterable container.  The container kind is chosen deterministically from the case."""
